@@ -423,3 +423,190 @@ def sv_and(n, m):
 
 
 SCENARIOS += [sv_and(0, 0), sv_and(1, 2), sv_and(2, 1)]
+
+
+# ---------------------------------------------------------------------------------------------------------------------
+# when a key / a signature counts as expired. Time model (assumed contract of datetime, stated): aware datetimes are instants on one
+# integer line, a timedelta is an integer distance, `+` and the comparisons are the integer ones.
+def expiry():
+    label = 'C17/expiry[PGPKey.expires_at,is_expired;PGPSignature.expires_at,is_expired]'
+    KEYC, SIGC, UIDC = 'pgpy.pgp.PGPKey', 'pgpy.pgp.PGPSignature', 'pgpy.pgp.PGPUID'
+
+    def gen(repo):
+        obls, funcs, paths = [], [], 0
+        # --- PGPKey.expires_at: creation time + the key expiration of the last identity (in identity order) whose self-signature states one
+        r = scn.Run(repo, KEYC, 'expires_at', label + '[key expires_at]')
+        ex, st = r.ex, r.st
+        CREATED = z3.Int('key_created')
+        N = 3
+        has = [z3.Bool('identity_%d_has_a_self_signature' % i) for i in range(N)]
+        states = [z3.Bool('self_signature_%d_states_a_key_expiration' % i) for i in range(N)]
+        EXP = [z3.Int('key_expiration_%d' % i) for i in range(N)]
+        uids = [E.VObj(UIDC, 'uid%d' % i) for i in range(N)]
+        r.hook(KEYC, 'userids', lambda ex, st, o, a: [(st, ex.new_list(st, uids))])
+        r.hook(KEYC, 'created', scn.const(E.VInt(CREATED)))
+
+        def selfsig(ex, st, o, a):
+            i = int(o.ref[3:])
+            if ('selfsig', i) in st.ghost:           # the same answer every time it is asked within one call
+                return [(st, E.VObj(SIGC, 'sig%d' % i) if st.ghost[('selfsig', i)] else E.VNone())]
+            s2 = st.clone()
+            st.pc.append(has[i])
+            st.ghost[('selfsig', i)] = True
+            s2.pc.append(z3.Not(has[i]))
+            s2.ghost[('selfsig', i)] = False
+            return [(st, E.VObj(SIGC, 'sig%d' % i)), (s2, E.VNone())]
+        r.hook(UIDC, 'selfsig', selfsig)
+
+        def kexp(ex, st, o, a):
+            i = int(o.ref[3:])
+            if ('kexp', i) in st.ghost:
+                return [(st, E.VInt(EXP[i]) if st.ghost[('kexp', i)] else E.VNone())]
+            s2 = st.clone()
+            st.pc.append(states[i])
+            st.ghost[('kexp', i)] = True
+            s2.pc.append(z3.Not(states[i]))
+            s2.ghost[('kexp', i)] = False
+            return [(st, E.VInt(EXP[i])), (s2, E.VNone())]
+        r.hook(SIGC, 'key_expiration', kexp)
+        for pi, (s, v) in enumerate(r.call(E.VObj(KEYC, 'key'), [])):
+            paths += 1
+            if isinstance(v, E.Raise):
+                r.oblige(s, 'safety(%s)/p%d' % (v.exc.split(':')[0], pi), z3.BoolVal(False), v.where)
+                continue
+            eff = [z3.And(has[i], states[i]) for i in range(N)]
+            want_none = z3.Not(z3.Or(*eff))
+            if isinstance(v, E.VNone):
+                r.oblige(s, 'none-only-if-no-identity-has-a-self-signature-stating-a-key-expiration/p%d' % pi, want_none)
+                continue
+            val = ex.as_int(v) if isinstance(v, (E.VInt, E.VBool)) else None
+            r.oblige(s, 'an-instant/p%d' % pi, z3.BoolVal(val is not None))
+            if val is None:
+                continue
+            last = z3.IntVal(-1)
+            for i in range(N):
+                last = z3.If(eff[i], z3.IntVal(i), last)
+            want = CREATED + z3.If(last == 2, EXP[2], z3.If(last == 1, EXP[1], EXP[0]))
+            r.oblige(s, 'creation-time-plus-the-key-expiration-of-the-last-identity-whose-self-signature-states-one/p%d' % pi, z3.And(z3.Not(want_none), val == want))
+        res = r.result()
+        obls += res['obligations']
+        funcs += res['funcs']
+        # --- PGPKey.is_expired: expired from the instant of expiry on (<=)
+        r = scn.Run(repo, KEYC, 'is_expired', label + '[key is_expired]')
+        ex, st = r.ex, r.st
+        AT, NOW, never = z3.Int('expires_at'), z3.Int('now'), z3.Bool('no_expiry')
+
+        def exat(ex, st, o, a):
+            s2 = st.clone()
+            st.pc.append(z3.Not(never))
+            s2.pc.append(never)
+            return [(st, E.VInt(AT)), (s2, E.VNone())]
+        r.hook(KEYC, 'expires_at', exat)
+        ex.hooks[('ext', 'datetime.now')] = lambda ex, st, o, a: [(st, E.VInt(NOW))]
+        for pi, (s, v) in enumerate(r.call(E.VObj(KEYC, 'key'), [])):
+            paths += 1
+            if isinstance(v, E.Raise):
+                r.oblige(s, 'safety(%s)/p%d' % (v.exc.split(':')[0], pi), z3.BoolVal(False), v.where)
+                continue
+            r.oblige(s, 'expired-iff-an-expiry-is-stated-and-its-instant-is-not-in-the-future/p%d' % pi, ex.truth(v, s) == z3.And(z3.Not(never), AT <= NOW))
+        res = r.result()
+        obls += res['obligations']
+        funcs += res['funcs']
+        # --- PGPSignature.is_expired: strictly after the instant, and a zero lifetime means "does not expire" (RFC 4880 5.2.3.10)
+        r = scn.Run(repo, SIGC, 'is_expired', label + '[signature is_expired]')
+        ex, st = r.ex, r.st
+        SC = z3.Int('signature_created')
+        r.hook(SIGC, 'expires_at', exat)
+        r.hook(SIGC, 'created', scn.const(E.VInt(SC)))
+        ex.hooks[('ext', 'datetime.now')] = lambda ex, st, o, a: [(st, E.VInt(NOW))]
+        for pi, (s, v) in enumerate(r.call(E.VObj(SIGC, 'sig'), [])):
+            paths += 1
+            if isinstance(v, E.Raise):
+                r.oblige(s, 'safety(%s)/p%d' % (v.exc.split(':')[0], pi), z3.BoolVal(False), v.where)
+                continue
+            r.oblige(s, 'expired-iff-an-expiry-other-than-the-creation-instant-is-stated-and-lies-in-the-past/p%d' % pi,
+                     ex.truth(v, s) == z3.And(z3.Not(never), AT != SC, AT < NOW))
+        res = r.result()
+        obls += res['obligations']
+        funcs += res['funcs']
+        # --- PGPSignature.expires_at: creation time + the stated lifetime (first expiration subpacket), None without one
+        r = scn.Run(repo, SIGC, 'expires_at', label + '[signature expires_at]')
+        ex, st = r.ex, r.st
+        LIFE = z3.Int('lifetime')
+        hasexp = z3.Bool('has_a_signature_expiration_subpacket')
+        r.set('sig', '_signature', E.VObj('pgpy.packet.packets.SignatureV4', 'spkt'))
+        r.set('spkt', 'subpackets', E.VObj('pgpy.packet.fields.SubPackets', 'subp'))
+        r.hook(SIGC, 'created', scn.const(E.VInt(SC)))
+        SPX = 'pgpy.packet.subpackets.signature.SignatureExpirationTime'
+        r.hook('pgpy.packet.fields.SubPackets', '__contains__', scn.method_hook(
+            lambda ex, st, o, a: [(st, E.VBool(z3.And(hasexp, z3.BoolVal(isinstance(a[0], E.VStr) and a[0].s == 'SignatureExpirationTime'))))]))
+        r.hook('pgpy.packet.fields.SubPackets', '__getitem__', scn.method_hook(
+            lambda ex, st, o, a: [(st, ex.new_list(st, [E.VObj(SPX, 'exp-first'), E.VObj(SPX, 'exp-second')]))] if isinstance(a[0], E.VStr) and a[0].s == 'SignatureExpirationTime'
+            else [(st, E.Raise('KeyError', 0))]))
+        r.hook(SPX, 'expires', lambda ex, st, o, a: [(st, E.VInt(LIFE if o.ref == 'exp-first' else LIFE + 1))])
+        for pi, (s, v) in enumerate(r.call(E.VObj(SIGC, 'sig'), [])):
+            paths += 1
+            if isinstance(v, E.Raise):
+                r.oblige(s, 'safety(%s)/p%d' % (v.exc.split(':')[0], pi), z3.BoolVal(False), v.where)
+                continue
+            if isinstance(v, E.VNone):
+                r.oblige(s, 'none-only-without-an-expiration-subpacket/p%d' % pi, z3.Not(hasexp))
+            else:
+                r.oblige(s, 'creation-time-plus-the-lifetime-of-the-first-expiration-subpacket/p%d' % pi,
+                         z3.And(hasexp, ex.as_int(v) == SC + LIFE) if isinstance(v, (E.VInt, E.VBool)) else z3.BoolVal(False))
+        res = r.result()
+        obls += res['obligations']
+        funcs += res['funcs']
+        return {'obligations': obls, 'funcs': funcs, 'paths': paths}
+    return Scenario(label, KEYC + '.is_expired', gen, props=('C17', 'C15'))
+
+SCENARIOS += [expiry()]
+
+
+
+def self_verified_condition():
+    """PGPKey.self_verified is where check_management takes the 'no valid self-signature' condition from (the property lists it among the
+    disqualifying ones). Stated from the property, over what the function can see of the key (identities and their self-signatures, the
+    key's own direct signatures, and PGPKey.verify as a callee with a stated contract): a key none of whose identities carries a
+    self-signature - in particular a key without identities - reports NoSelfSignature or Invalid; the answer never contains an issue of
+    another kind. On the pinned tree the function is a stub that answers OK without looking (finding D41)."""
+    label = 'C17/PGPKey.self_verified'
+    KEYC, SIGC, UIDC = 'pgpy.pgp.PGPKey', 'pgpy.pgp.PGPSignature', 'pgpy.pgp.PGPUID'
+
+    def gen(repo):
+        obls, funcs, paths = [], [], 0
+        mem = repo.enum_members(SI)
+        NOSELF, INVALID = mem['NoSelfSignature'], mem['Invalid']
+        for shape in ('key without identities', 'identities without a self-signature', 'identity whose self-signature does not verify'):
+            r = scn.Run(repo, KEYC, 'self_verified', '%s[%s]' % (label, shape))
+            ex, st = r.ex, r.st
+            me = E.VObj(KEYC, 'key')
+            r.hook(KEYC, 'is_primary', scn.const(E.VBool(True)))
+            u0, u1 = E.VObj(UIDC, 'uid0'), E.VObj(UIDC, 'uid1')
+            ids = [] if shape == 'key without identities' else [u0, u1]
+            r.hook(KEYC, 'userids', lambda ex, st, o, a: [(st, ex.new_list(st, ids))])
+            r.hook(KEYC, 'userattributes', lambda ex, st, o, a: [(st, ex.new_list(st, []))])
+            r.set('key', '_uids', ex.new_list(st, ids))
+            r.set('key', '_signatures', ex.new_list(st, []))
+            r.hook(KEYC, 'self_signatures', lambda ex, st, o, a: [(st, ex.new_list(st, []))])
+            s0 = E.VObj(SIGC, 'selfsig0')
+            r.hook(UIDC, 'selfsig', lambda ex, st, o, a: [(st, s0 if (shape.endswith('does not verify') and o.ref == 'uid0') else E.VNone())])
+            r.hook(UIDC, 'self_signatures', lambda ex, st, o, a: [(st, ex.new_list(st, [s0] if (shape.endswith('does not verify') and o.ref == 'uid0') else []))])
+            r.hook(KEYC, 'verify', scn.method_hook(lambda ex, st, o, a: [(st, E.VObj('abstract:Verdict', 'verdict'))]))
+            r.hook('abstract:Verdict', '__bool__', scn.method_hook(lambda ex, st, o, a: [(st, E.VBool(False))]))
+            for pi, (s, v) in enumerate(r.call(me, [])):
+                paths += 1
+                if isinstance(v, E.Raise):
+                    r.oblige(s, 'safety(%s)/p%d' % (v.exc.split(':')[0], pi), z3.BoolVal(False), v.where)
+                    continue
+                res = ex_int(v)
+                r.oblige(s, 'no-valid-self-signature=>NoSelfSignature-or-Invalid-is-reported/p%d' % pi, z3.Or(bits_or(res, z3.IntVal(NOSELF)) == res, bits_or(res, z3.IntVal(INVALID)) == res))
+                r.oblige(s, 'reports-nothing-but-NoSelfSignature-and-Invalid/p%d' % pi, bits_or(res, z3.IntVal(NOSELF | INVALID)) == (NOSELF | INVALID))
+            res_ = r.result()
+            obls += res_['obligations']
+            funcs += res_['funcs']
+        return {'obligations': obls, 'funcs': funcs, 'paths': paths}
+    return Scenario(label, KEYC + '.self_verified', gen, props=('C17',))
+
+
+SCENARIOS += [self_verified_condition()]
